@@ -108,7 +108,7 @@ theorem start_empty_winv {cfg : Cfg} (hlim : 1 ≤ cfg.limit) :
   · exact ⟨[], by simp, by simp, by intro _ m hm; simp at hm⟩
   · intro n f hf
     by_cases h : n = 0
-    · subst h; simp at hf; subst hf; simp
+    · subst h; simp at hf; subst hf; left; simp
     · simp [h] at hf
   · intro n g g' hg; simp at hg
   · have : retained (setFile emptyFs 0 []) (numGen cfg) = [] := by
@@ -145,7 +145,7 @@ theorem setFile_setFile_get (fs : Fs) (a b : File) (i : Nat) :
   by_cases h : i = 0 <;> simp [h]
 
 theorem step_write_winv {cfg : Cfg} {w : World} {msgs : List Msg} {m : Msg} (hlim : 1 ≤ cfg.limit)
-    (hW : WInv cfg w msgs) (hm : Admissible cfg m) :
+    (hW : WInv cfg w msgs) (hm : Writable cfg m) :
     (w.step (.write m)).2 = .ok () ∧ WInv cfg (w.step (.write m)).1 (msgs ++ [m]) := by
   obtain ⟨hcfg, c, k, hp, hI⟩ := hW
   obtain ⟨f, h0, hc, hnl⟩ := hI.cur
@@ -195,7 +195,7 @@ def runFrom (w : World) (evs : List Event) : World := evs.foldl (fun w e => (w.s
 theorem run_eq (cfg : Cfg) (evs : List Event) : run cfg evs = runFrom (start cfg emptyFs).1 evs := rfl
 
 theorem runFrom_winv {cfg : Cfg} (hlim : 1 ≤ cfg.limit) (evs : List Event) :
-    ∀ (w : World) (msgs : List Msg), WInv cfg w msgs → (∀ m ∈ messages evs, Admissible cfg m) →
+    ∀ (w : World) (msgs : List Msg), WInv cfg w msgs → (∀ m ∈ messages evs, Writable cfg m) →
       WInv cfg (runFrom w evs) (msgs ++ messages evs) := by
   induction evs with
   | nil => intro w msgs hW _; simpa [runFrom, messages] using hW
@@ -212,7 +212,7 @@ theorem runFrom_winv {cfg : Cfg} (hlim : 1 ≤ cfg.limit) (evs : List Event) :
       simpa [runFrom, messages] using this
 
 theorem run_winv {cfg : Cfg} (hlim : 1 ≤ cfg.limit) (evs : List Event)
-    (hadm : ∀ m ∈ messages evs, Admissible cfg m) : WInv cfg (run cfg evs) (messages evs) := by
+    (hadm : ∀ m ∈ messages evs, Writable cfg m) : WInv cfg (run cfg evs) (messages evs) := by
   have := runFrom_winv hlim evs _ [] (start_empty_winv hlim).2 hadm
   simpa [run_eq] using this
 
@@ -270,5 +270,49 @@ theorem step_restart_fs {cfg : Cfg} {w : World} {msgs : List Msg} (hlim : 1 ≤ 
     rw [openFirst_roll h0 hnl hlim hfull]
     show (setFile (rollFiles cfg w.fs) 0 []).get i = _
     rw [roll_get cfg w.fs k hI.k_le hI.ex hI.nex [] i]
+
+/-! ### generations that exceed the limit (messages longer than a whole generation) -/
+
+theorem cost_le_size_of_mem (cfg : Cfg) {g : File} {m : Msg} (h : m ∈ g) : cost cfg m ≤ size cfg g := by
+  induction g with
+  | nil => cases h
+  | cons x g ih =>
+    have e : size cfg (x :: g) = cost cfg x + size cfg g := by
+      unfold size cost fileBytes
+      cases cfg.kind
+      · simp; omega
+      · simp
+    rw [e]
+    rcases List.mem_cons.mp h with h | h
+    · subst h; omega
+    · have := ih h; omega
+
+/-- a generation that exceeds the limit although it is `GenOk` is one message that does not fit on its own -/
+theorem genOk_exceeds {cfg : Cfg} {g : File} (h : GenOk cfg g) (hex : cfg.limit < size cfg g) :
+    ∃ m, g = [m] ∧ cfg.limit < cost cfg m := by
+  rcases h with h | h
+  · omega
+  · match g, h with
+    | [m], _ => exact ⟨m, rfl, by rw [size_single] at hex; exact hex⟩
+
+/-- a generation all of whose messages fit on their own respects the limit when it is `GenOk` -/
+theorem genOk_fitting {cfg : Cfg} {g : File} (h : GenOk cfg g) (hfit : ∀ m ∈ g, cost cfg m ≤ cfg.limit) :
+    size cfg g ≤ cfg.limit := by
+  by_cases hex : cfg.limit < size cfg g
+  · obtain ⟨m, hg, hm⟩ := genOk_exceeds h hex
+    subst hg
+    have := hfit m (by simp)
+    omega
+  · omega
+
+theorem mem_retained {fs : Fs} {n i : Nat} {g : File} {m : Msg} (hi : i < n) (hg : fs.get i = some g)
+    (hm : m ∈ g) : m ∈ retained fs n := by
+  induction n with
+  | zero => omega
+  | succ n ih =>
+    simp only [retained]
+    by_cases h : i = n
+    · subst h; rw [hg]; simp [hm]
+    · exact List.mem_append_right _ (ih (by omega))
 
 end CelmaVerif.LogFiles
